@@ -1339,12 +1339,14 @@ class Session:
                 ediv=self.peer_ediv,
                 rand=self.peer_rand,
             )
-            if self.is_initiator:
-                keys.ltk_central = peer_ltk_key
-                keys.ltk_peripheral = our_ltk_key
-            else:
-                keys.ltk_central = our_ltk_key
-                keys.ltk_peripheral = peer_ltk_key
+            # ltk_central is the key to use when this device is the central of a
+            # later connection (the key distributed by the peer), ltk_peripheral
+            # the key to answer with when it is the peripheral (the key we
+            # distributed): that is how Device.encrypt() and
+            # Device.get_long_term_key() select them, whatever role this device
+            # had during pairing.
+            keys.ltk_central = peer_ltk_key
+            keys.ltk_peripheral = our_ltk_key
         if self.peer_identity_resolving_key is not None:
             keys.irk = PairingKeys.Key(
                 value=self.peer_identity_resolving_key, authenticated=authenticated
